@@ -416,13 +416,13 @@ func affineD(v ssa.Value, d int) (Affine, bool) {
 		return affSymOfPath(x), true
 	case *ssa.Call:
 		if m := bigMethod(x); m == "BitLen" {
-			return affSym("bitlen(" + desc(x.Call.Args[0]) + ")"), true
+			return affSym("bitlen(" + desc(callArgs(x)[0]) + ")"), true
 		}
 		if isCallTo(x, "builtin:len") {
-			if ms, ok := x.Call.Args[0].(*ssa.MakeSlice); ok {
+			if ms, ok := callArgs(x)[0].(*ssa.MakeSlice); ok {
 				return affineD(ms.Len, d+1)
 			}
-			return affSym("len(" + desc(x.Call.Args[0]) + ")"), true
+			return affSym("len(" + desc(callArgs(x)[0]) + ")"), true
 		}
 		return affSym(desc(x)), true
 	case *ssa.Parameter:
@@ -544,8 +544,8 @@ func siteOfSeen(v ssa.Value, seen map[ssa.Value]bool) ssa.Value {
 	for i := 0; i < 50; i++ {
 		switch x := v.(type) {
 		case *ssa.Call:
-			if m := bigMethod(x); m != "" && bigMutators[m] && len(x.Call.Args) > 0 {
-				v = x.Call.Args[0]
+			if m := bigMethod(x); m != "" && bigMutators[m] && len(callArgs(x)) > 0 {
+				v = callArgs(x)[0]
 				continue
 			}
 			return x
@@ -713,10 +713,10 @@ func (be *BigEval) termOf(st btState, v ssa.Value) Term {
 		return termOpaque(desc(x))
 	case *ssa.Call:
 		if isCallTo(x, "big.NewInt", "math/big.NewInt") {
-			if c, ok := constInt(x.Call.Args[0]); ok {
+			if c, ok := constInt(callArgs(x)[0]); ok {
 				return termConst(c)
 			}
-			if a, ok := affineOf(x.Call.Args[0]); ok && a.isConst() {
+			if a, ok := affineOf(callArgs(x)[0]); ok && a.isConst() {
 				return termConst(a.C)
 			}
 			return termOpaque(desc(x))
@@ -742,13 +742,13 @@ func (be *BigEval) step(st btState, ins ssa.Instruction) {
 	case *ssa.Call:
 		switch calleeName(x) {
 		case "common.ModPow":
-			st[x] = termFn("Exp", be.termOf(st, x.Call.Args[0]), be.termOf(st, x.Call.Args[1]), be.termOf(st, x.Call.Args[2]))
+			st[x] = termFn("Exp", be.termOf(st, callArgs(x)[0]), be.termOf(st, callArgs(x)[1]), be.termOf(st, callArgs(x)[2]))
 		case "common.ModInverse":
-			st[x] = termFn("ModInverse", be.termOf(st, x.Call.Args[0]), be.termOf(st, x.Call.Args[1]))
+			st[x] = termFn("ModInverse", be.termOf(st, callArgs(x)[0]), be.termOf(st, callArgs(x)[1]))
 		}
 		be.inlineHelper(st, x)
 		m := bigMethod(x)
-		args := x.Call.Args
+		args := callArgs(x)
 		if m != "" || isBigIntPtrArgs(args) {
 			ts := make([]Term, len(args))
 			for i, a := range args {
@@ -1065,16 +1065,16 @@ func parseGuard(a Atom, be *BigEval) (Guard, bool) {
 			if r == "" || r == "true" || r == "false" {
 				return Guard{}, false
 			}
-			g := Guard{Kind: "big", Subject: desc(c.Call.Args[0]), SubjV: c.Call.Args[0], Rel: r, Call: c, Bound: termTop()}
+			g := Guard{Kind: "big", Subject: desc(callArgs(c)[0]), SubjV: callArgs(c)[0], Rel: r, Call: c, Bound: termTop()}
 			// mirrored form `bound.Cmp(x) > 0`: the subject is the operand that is less bound-like
-			if guardRank(desc(c.Call.Args[1])) > guardRank(desc(c.Call.Args[0])) {
-				g.Subject, g.SubjV, g.Rel = desc(c.Call.Args[1]), c.Call.Args[1], relFlip[r]
+			if guardRank(desc(callArgs(c)[1])) > guardRank(desc(callArgs(c)[0])) {
+				g.Subject, g.SubjV, g.Rel = desc(callArgs(c)[1]), callArgs(c)[1], relFlip[r]
 				if be != nil {
 					if ts, ok := be.At[c]; ok && len(ts) >= 2 {
 						g.Bound = ts[0]
 					}
 				} else {
-					g.Bound = termOpaque(desc(c.Call.Args[0]))
+					g.Bound = termOpaque(desc(callArgs(c)[0]))
 				}
 				return g, true
 			}
@@ -1083,13 +1083,13 @@ func parseGuard(a Atom, be *BigEval) (Guard, bool) {
 					g.Bound = ts[1]
 					// if the subject side is the computed one (e.g. bound.Cmp(x)), swap
 					if isPlainSym(ts[1]) && !ts[0].Top && !isPlainSym(ts[0]) {
-						g.Subject, g.SubjV = desc(c.Call.Args[1]), c.Call.Args[1]
+						g.Subject, g.SubjV = desc(callArgs(c)[1]), callArgs(c)[1]
 						g.Rel = relFlip[r]
 						g.Bound = ts[0]
 					}
 				}
 			} else {
-				g.Bound = termOpaque(desc(c.Call.Args[1]))
+				g.Bound = termOpaque(desc(callArgs(c)[1]))
 			}
 			return g, true
 		case "Sign":
@@ -1101,13 +1101,13 @@ func parseGuard(a Atom, be *BigEval) (Guard, bool) {
 			if r == "" || r == "true" || r == "false" {
 				return Guard{}, false
 			}
-			return Guard{Kind: "big", Subject: desc(c.Call.Args[0]), SubjV: c.Call.Args[0], Rel: r, Bound: termConst(0), Call: c}, true
+			return Guard{Kind: "big", Subject: desc(callArgs(c)[0]), SubjV: callArgs(c)[0], Rel: r, Bound: termConst(0), Call: c}, true
 		case "BitLen":
 			af, ok := affineOf(R)
 			if !ok {
 				return Guard{}, false
 			}
-			return Guard{Kind: "bitlen", Subject: desc(c.Call.Args[0]), SubjV: c.Call.Args[0], Rel: rel, BoundA: af, Call: c}, true
+			return Guard{Kind: "bitlen", Subject: desc(callArgs(c)[0]), SubjV: callArgs(c)[0], Rel: rel, BoundA: af, Call: c}, true
 		}
 	}
 	if c, ok := R.(*ssa.Call); ok && bigMethod(c) == "BitLen" {
@@ -1115,7 +1115,7 @@ func parseGuard(a Atom, be *BigEval) (Guard, bool) {
 		if !ok {
 			return Guard{}, false
 		}
-		return Guard{Kind: "bitlen", Subject: desc(c.Call.Args[0]), SubjV: c.Call.Args[0], Rel: relFlip[rel], BoundA: af, Call: c}, true
+		return Guard{Kind: "bitlen", Subject: desc(callArgs(c)[0]), SubjV: callArgs(c)[0], Rel: relFlip[rel], BoundA: af, Call: c}, true
 	}
 	// plain integer comparison
 	if isIntegerType(L.Type()) {
@@ -1146,14 +1146,14 @@ func (g Guard) relFor(v ssa.Value, be *BigEval) (string, Term, bool) {
 	if g.SubjV != nil && siteOf(g.SubjV) == siteOf(v) {
 		return g.Rel, g.Bound, true
 	}
-	if g.Call == nil || len(g.Call.Call.Args) != 2 || be == nil {
+	if g.Call == nil || len(callArgs(g.Call)) != 2 || be == nil {
 		return "", Term{}, false
 	}
 	ts := be.at(g.Call)
 	if len(ts) != 2 {
 		return "", Term{}, false
 	}
-	for k, op := range g.Call.Call.Args {
+	for k, op := range callArgs(g.Call) {
 		if siteOf(op) == siteOf(v) && op != g.SubjV {
 			return relFlip[g.Rel], ts[1-k], true
 		}
@@ -1190,10 +1190,10 @@ func (g Guard) relBetween(subj string, bound Term) (string, bool) {
 		return relFlip[g.Rel], true
 	}
 	// the object named subj may have been computed since (ret.Set(..); p.Cmp(ret)): go by the operands' names
-	if g.Call != nil && len(g.Call.Call.Args) == 2 && n != "" && g.Subject == n {
-		other := g.Call.Call.Args[1]
+	if g.Call != nil && len(callArgs(g.Call)) == 2 && n != "" && g.Subject == n {
+		other := callArgs(g.Call)[1]
 		if g.SubjV == other {
-			other = g.Call.Call.Args[0]
+			other = callArgs(g.Call)[0]
 		}
 		if desc(other) == subj {
 			return relFlip[g.Rel], true
@@ -1286,7 +1286,7 @@ func (P *Program) globalBigConst(g *ssa.Global) (int64, bool) {
 					if gg, ok := x.Addr.(*ssa.Global); ok && isBigIntPtr(x.Val.Type()) {
 						stores[gg]++
 						if c, ok := x.Val.(*ssa.Call); ok && isCallTo(c, "big.NewInt", "math/big.NewInt") && strings.HasPrefix(fn.Name(), "init") {
-							if k, ok := constInt(c.Call.Args[0]); ok {
+							if k, ok := constInt(callArgs(c)[0]); ok {
 								vals[gg] = k
 								return
 							}
@@ -1294,8 +1294,8 @@ func (P *Program) globalBigConst(g *ssa.Global) (int64, bool) {
 						mutated[gg] = true
 					}
 				case *ssa.Call:
-					if m := bigMethod(x); m != "" && bigMutators[m] && len(x.Call.Args) > 0 {
-						if u, ok := x.Call.Args[0].(*ssa.UnOp); ok {
+					if m := bigMethod(x); m != "" && bigMutators[m] && len(callArgs(x)) > 0 {
+						if u, ok := callArgs(x)[0].(*ssa.UnOp); ok {
 							if gg, ok := u.X.(*ssa.Global); ok {
 								mutated[gg] = true
 							}
@@ -1329,7 +1329,7 @@ func (P *Program) mayMutateArg(c *ssa.Call, a ssa.Value) bool {
 	if c.Call.IsInvoke() {
 		off = 1
 	}
-	for j, x := range c.Call.Args {
+	for j, x := range callArgs(c) {
 		if x != a {
 			continue
 		}
@@ -1369,10 +1369,10 @@ func (P *Program) mutatesParam(g *ssa.Function, k, depth int) bool {
 			switch u := r.(type) {
 			case *ssa.Call:
 				if m := bigMethod(u); m != "" {
-					if bigMutators[m] && len(u.Call.Args) > 0 && u.Call.Args[0] == v {
+					if bigMutators[m] && len(callArgs(u)) > 0 && callArgs(u)[0] == v {
 						res = true
 					}
-					if m == "GCD" && (u.Call.Args[1] == v || u.Call.Args[2] == v) {
+					if m == "GCD" && (callArgs(u)[1] == v || callArgs(u)[2] == v) {
 						res = true
 					}
 					continue
@@ -1381,7 +1381,7 @@ func (P *Program) mutatesParam(g *ssa.Function, k, depth int) bool {
 				if u.Call.IsInvoke() {
 					off = 1
 				}
-				for j, a := range u.Call.Args {
+				for j, a := range callArgs(u) {
 					if a != v {
 						continue
 					}
